@@ -141,6 +141,12 @@ func (d *Doc) Menu(f Field) []uint64 {
 		m = []uint64{0, 1, cur - 1, cur + 1, 128, 129, 0x7fff, 0x8000, 0xfffe, 0xffff}
 	case "count32":
 		m = []uint64{0, 1, 2, 3, 4, 5, cur - 1, cur + 1, 1023, 1024, 1025, 4097, 0x10000, 0x7fffffff, 0x80000000, 0xffffffff}
+		// counts whose product with a unit size of 2, 4 or 8 wraps 32 bits to a small number
+		for _, base := range []uint64{0x20000000, 0x40000000, 0x80000000, 0xc0000000} {
+			for _, k := range []uint64{1, 2, 3, 5, cur} {
+				m = append(m, base+k)
+			}
+		}
 	case "type16":
 		m = []uint64{0, 1, 2, 3, 4, 5, 6, 7, 10, 12, 13, 0xf0, 0xf1, 0xffff}
 	case "len16":
